@@ -17,7 +17,7 @@ from argparse import Namespace
 from contextlib import redirect_stdout, redirect_stderr
 
 from . import seams
-from .canon import canon_closed_form, canon_typedefs
+from .canon import canon_closed_form, canon_typedefs, unlimited_ints
 
 ANSI = re.compile(r"\x1b\[[0-9;]*m")
 
@@ -50,6 +50,11 @@ def _sanitize_ids(s):
 
 
 def parse_goal_output(text):
+    with unlimited_ints():
+        return _parse_goal_output(text)
+
+
+def _parse_goal_output(text):
     """Parse the lines GoalsAction prints.  Returns {"goals": {id: {"cf":…, "exact":bool}}, "invariants": [...]|None}"""
     text = ANSI.sub("", text)
     goals = {}
@@ -169,8 +174,9 @@ class LibSession:
             from recurrences import RecBuilder
             self.program = normalize_program(self.program)
             self.rb = RecBuilder(self.program)
-            return {"typedefs": canon_typedefs(self.program), "n_body": len(self.program.loop_body),
-                    "normalized_sig": _norm_sig(self.program)}
+            with unlimited_ints():
+                sig = _norm_sig(self.program)
+            return {"typedefs": canon_typedefs(self.program), "n_body": len(self.program.loop_body), "normalized_sig": sig}
         if name.startswith("goal:"):
             g = spec["goals"][int(name.split(":")[1])]
             api = spec.get("api", "raw")
@@ -208,7 +214,8 @@ class LibSession:
             # indeterminates are named after the goal monomials, so that a permuted goal list denotes the same ideal
             cfs = {"g_" + re.sub(r"[^A-Za-z0-9]", "_", g["monom"]): self.closed[g["monom"]] for g in spec["goals"] if g["monom"] in self.closed}
             basis = InvariantIdeal(cfs).compute_basis()
-            return {"basis": sorted(str(b) for b in basis)}
+            with unlimited_ints():
+                return {"basis": sorted(str(b) for b in basis)}
         raise ValueError(name)
 
 
